@@ -814,7 +814,15 @@ class Engine:
             st.finals.append(s.finalbody)
         inner = []
         for o in self.exec_block(s.body, st):
-            if o.sig == RAISE and s.handlers:
+            if o.sig == RAISE and isinstance(o.val, tuple) and o.val and o.val[0] == 'body-exit' and o.val[1] in (RETURN, BREAK, CONTINUE):
+                # a `with` body left by return / break / continue: for the generator-based manager this is a NORMAL
+                # resumption after its yield (no exception is thrown in): the else clause runs, then the exit goes on
+                if s.orelse:
+                    for eo in self.exec_block(s.orelse, o.st):
+                        inner.append(Outcome(eo.st, o.sig, o.val) if eo.sig == NEXT else eo)
+                else:
+                    inner.append(o)
+            elif o.sig == RAISE and s.handlers:
                 inner.extend(self._handle(s, o))
             elif o.sig == NEXT and s.orelse:
                 inner.extend(self.exec_block(s.orelse, o.st))
@@ -839,16 +847,22 @@ class Engine:
         """`except` clauses: an exception is identified by its class name; a clause naming Exception / BaseException (or a bare
         `except:`) catches every modelled exception, any other clause exactly the classes it names (the library's own
         exception classes have no subclass relation among them)"""
-        name = o.val.v.name if isinstance(o.val, C) and isinstance(o.val.v, Ref) else None
+        val = o.val
+        if isinstance(val, tuple) and val and val[0] == 'body-exit':
+            # a `with` body left by an exception (thrown into the manager at its yield) or by closing the generator the body
+            # is suspended in (GeneratorExit)
+            val = C(Ref('exc', 'GeneratorExit')) if val[1] == GENEXIT else val[2]
+        name = val.v.name if isinstance(val, C) and isinstance(val.v, Ref) else None
         if name is None:
             raise OutOfSubset("exception value", s)
+        base_only = name in ('GeneratorExit', 'KeyboardInterrupt', 'SystemExit')     # BaseException, not Exception
         for h in s.handlers:
             if h.type is None:
                 names = None
             else:
                 elts = h.type.elts if isinstance(h.type, ast.Tuple) else [h.type]
                 names = [_exc_name(e) for e in elts]
-            if names is None or name in names or 'Exception' in names or 'BaseException' in names:
+            if names is None or name in names or ('Exception' in names and not base_only) or 'BaseException' in names:
                 st = o.st.clone()
                 if h.name:
                     st.locals[h.name] = o.val
